@@ -13,6 +13,10 @@ import TetlProofs.C06.Fill
 import TetlProofs.C06.Merge
 import TetlProofs.C06.StablePartition
 import TetlProofs.C06.Numeric
+import TetlProofs.C06.Copy
+import TetlProofs.C06.Unique
+import TetlProofs.C06.Partition
+import TetlProofs.C06.Search
 namespace Tetl.C06.Props
 open Tetl Tetl.C06
 variable {α : Type}
@@ -505,5 +509,113 @@ theorem adjacentDifference_eq (op : α → α → α) (P R S : List α) :
     simp only [Bool.false_eq_true, if_false]
     rw [hrd, ok_bind, show P.length + (x :: xs).length - P.length - 1 = xs.length from by simp, hloop]
     rfl
+
+/-! ## copy / move / copy_backward / move_backward inside one storage (overlap allowed where the standard defines it) -/
+
+/-- `copy` / `move` (moving an int-like element is a copy): the destination `[d, d+(l-f))` receives the ORIGINAL
+    source elements, everything else is unchanged, returns the end of the destination.  Precondition
+    [alg.copy]: `d ∉ [f,l)` — the destination may overlap the source from the left. -/
+theorem copy_eq (a : List α) (f l d : Nat) (hfl : f ≤ l) (hl : l ≤ a.length) (hd : d + (l - f) ≤ a.length)
+    (hov : d ≤ f ∨ l ≤ d) :
+    copy a f l d = .ok (splice a d (d + (l - f)) (slice a f l), d + (l - f)) :=
+  copy_spec a f l d hfl hl hd hov
+example : (1 ≤ 3 ∧ 3 ≤ [1, 2, 3, 4].length ∧ 0 + (3 - 1) ≤ [1, 2, 3, 4].length ∧ (0 ≤ 1 ∨ 3 ≤ 0)) := by decide
+
+/-- `copy_backward` / `move_backward`; precondition [alg.copy]: `dLast ∉ (f,l]` — the destination may overlap the
+    source from the right -/
+theorem copyBackward_eq (a : List α) (f l dLast : Nat) (hfl : f ≤ l) (hl : l ≤ a.length) (hk : l - f ≤ dLast)
+    (hd : dLast ≤ a.length) (hov : dLast ≤ f ∨ l ≤ dLast) :
+    copyBackward a f l dLast = .ok (splice a (dLast - (l - f)) dLast (slice a f l), dLast - (l - f)) :=
+  copyBackward_spec a f l dLast hfl hl hk hd hov
+example : (0 ≤ 2 ∧ 2 ≤ [1, 2, 3, 4].length ∧ 2 - 0 ≤ 3 ∧ 3 ≤ [1, 2, 3, 4].length ∧ (3 ≤ 0 ∨ 2 ≤ 3)) := by decide
+
+/-! ## shift_left (both iterator branches) / shift_right (`Z`: the moved-from / vacated positions, unspecified) -/
+
+theorem shiftLeftRA_eq (P R S : List α) (n : Int) :
+    ∃ Z, shiftLeftRA (P ++ R ++ S) P.length (P.length + R.length) n
+          = .ok (P ++ ((Spec.shiftLeft R n).1 ++ Z) ++ S, P.length + (Spec.shiftLeft R n).2)
+        ∧ ((Spec.shiftLeft R n).1 ++ Z).length = R.length :=
+  shiftLeftRA_spec P R S n
+
+theorem shiftLeftFwd_eq (P R S : List α) (n : Int) :
+    ∃ Z, shiftLeftFwd (P ++ R ++ S) P.length (P.length + R.length) n
+          = .ok (P ++ ((Spec.shiftLeft R n).1 ++ Z) ++ S, P.length + (Spec.shiftLeft R n).2)
+        ∧ ((Spec.shiftLeft R n).1 ++ Z).length = R.length :=
+  shiftLeftFwd_spec P R S n
+
+/-- shift_right (as repaired): `[ret, last)` holds the kept elements, `ret = first + n`; no effect for `n ≤ 0`, `n ≥ len` -/
+theorem shiftRight_eq (dflt : α) (P R S : List α) (n : Int) :
+    ∃ Z, shiftRight dflt (P ++ R ++ S) P.length (P.length + R.length) n
+          = .ok (P ++ (Z ++ (Spec.shiftRight R n).1) ++ S, P.length + (Spec.shiftRight R n).2)
+        ∧ Z.length = (Spec.shiftRight R n).2
+        ∧ ((n ≤ 0 ∨ n ≥ (R.length : Int)) → Z ++ (Spec.shiftRight R n).1 = R) :=
+  shiftRight_spec dflt P R S n
+
+/-! ## unique_copy / unique / adjacent_find / is_sorted_until / is_sorted -/
+
+theorem uniqueCopy_eq (pred : α → α → Bool) (P R S : List α) :
+    uniqueCopy pred (P ++ R ++ S) P.length (P.length + R.length) = .ok (Spec.unique pred R) :=
+  uniqueCopy_spec pred P R S
+
+/-- `unique`: the first element of every group of consecutive equivalents, compacted to the front (tail `Z` unspecified) -/
+theorem unique_eq (pred : α → α → Bool) (P R S : List α) :
+    ∃ Z, unique pred (P ++ R ++ S) P.length (P.length + R.length)
+          = .ok (P ++ (Spec.unique pred R ++ Z) ++ S, P.length + (Spec.unique pred R).length)
+        ∧ (Spec.unique pred R ++ Z).length = R.length :=
+  unique_spec pred P R S
+
+theorem adjacentFind_eq (pred : α → α → Bool) (P R S : List α) :
+    adjacentFind pred (P ++ R ++ S) P.length (P.length + R.length) = .ok (P.length + Spec.adjacentFind pred R) :=
+  adjacentFind_spec pred P R S
+
+theorem isSortedUntil_eq (lt : α → α → Bool) (P R S : List α) :
+    isSortedUntil lt (P ++ R ++ S) P.length (P.length + R.length) = .ok (P.length + Spec.isSortedUntil lt R) :=
+  isSortedUntil_spec lt P R S
+
+/-- `is_sorted` is true exactly when no adjacent pair is out of order -/
+theorem isSorted_eq (lt : α → α → Bool) (P R S : List α) :
+    isSorted lt (P ++ R ++ S) P.length (P.length + R.length) = .ok (Spec.isSortedUntil lt R == R.length)
+    ∧ (Spec.isSortedUntil lt R = R.length ↔ ∀ i (h : i + 1 < R.length), lt R[i + 1] R[i] = false) :=
+  ⟨isSorted_spec lt P R S, isSortedUntil_eq_length_iff lt R⟩
+
+/-! ## partition / transform (binary) / binary_search / partial_sum -/
+
+/-- `partition`: a permutation of the range, every element satisfying `p` before every element that does not,
+    returns the partition point, context untouched -/
+theorem partition_eq (p : α → Bool) (P R S : List α) :
+    ∃ R', partition p (P ++ R ++ S) P.length (P.length + R.length) = .ok (P ++ R' ++ S, P.length + R.countP p)
+        ∧ R'.Perm R ∧ (∀ x ∈ R'.take (R.countP p), p x = true) ∧ (∀ x ∈ R'.drop (R.countP p), p x = false) :=
+  partition_spec p P R S
+
+theorem transform2_eq (op : α → α → α) (P R S Q T U : List α) (h : R.length ≤ T.length) :
+    transform2 op (P ++ R ++ S) P.length (P.length + R.length) (Q ++ T ++ U) Q.length (Q.length + T.length)
+      = .ok ((R.zip T).map (fun xy => op xy.1 xy.2)) :=
+  transform2_spec op P R S Q T U h
+example : [1, 2].length ≤ [1, 3, 4].length := by decide
+
+theorem binarySearch_eq (lt : α → α → Bool) (v : α) (P R S : List α)
+    (hp1 : Spec.isPartitioned (fun x => lt x v) R = true) (hp2 : Spec.isPartitioned (fun x => !lt v x) R = true) :
+    binarySearch lt v (P ++ R ++ S) P.length (P.length + R.length) = .ok (Spec.binarySearch lt v R) :=
+  binarySearch_spec lt v P R S hp1 hp2
+example : Spec.isPartitioned (fun x => decide (x < 2)) [1, 1, 2, 3] = true ∧
+    Spec.isPartitioned (fun x => !decide (2 < x)) [1, 1, 2, 3] = true := by decide
+
+theorem partialSum_eq (op : α → α → α) (P R S : List α) :
+    partialSum op (P ++ R ++ S) P.length (P.length + R.length) = .ok (Spec.partialSum op R) :=
+  partialSum_spec op P R S
+
+/-! ## search / find_end / search_n (any needle, any count; reads only inside the range, terminates) -/
+
+theorem search_eq (pred : α → α → Bool) (P R S s : List α) :
+    search pred (P ++ R ++ S) P.length (P.length + R.length) s = .ok (P.length + Spec.search pred R s) :=
+  search_spec pred P R S s
+
+theorem findEnd_eq (pred : α → α → Bool) (P R S s : List α) :
+    findEnd pred (P ++ R ++ S) P.length (P.length + R.length) s = .ok (P.length + Spec.findEnd pred R s) :=
+  findEnd_spec pred P R S s
+
+theorem searchN_eq (pred : α → α → Bool) (P R S : List α) (count : Int) (v : α) :
+    searchN pred (P ++ R ++ S) P.length (P.length + R.length) count v = .ok (P.length + Spec.searchN pred R count v) :=
+  searchN_spec pred P R S count v
 
 end Tetl.C06.Props
